@@ -62,7 +62,7 @@ struct Handle {
     write: bool,
 }
 
-pub struct BudgetExceeded;
+pub use simcore::harness::BudgetExceeded;
 
 struct Inner {
     files: Image,
